@@ -155,7 +155,7 @@ def run_case_files(outdir, meta):
             errors.append({"file": f["file"], "output": out[-1500:]})
             continue
         for idx in parse_nat_list(evs[0][0]):
-            mism.append(dict(f["cases"][idx], file=f["file"], index=idx, kind=f["kind"]))
+            mism.append(dict(meta["descs"][f["cases"][idx]], file=f["file"], index=idx, kind=f["kind"]))
         if f.get("has_nontrivial") and len(evs) > 1:
             nontriv += int(evs[1][0].split('%')[0])
         elif not f.get("has_nontrivial"):
